@@ -867,6 +867,15 @@ impl<'a> WriteTxn<'a> {
                 })?;
             }
 
+            // Tombstones first: replay feeds the records to a memtable in order, and an edge
+            // that is still in the run was (re-)created after its key was tombstoned.
+            for edge in run.iter_tombstoned_edges() {
+                wal.append(&WalRecord::TombstoneEdge {
+                    src: edge.src,
+                    rel: edge.rel,
+                    dst: edge.dst,
+                })?;
+            }
             for edge in run.iter_edges() {
                 wal.append(&WalRecord::CreateEdge {
                     src: edge.src,
@@ -876,13 +885,6 @@ impl<'a> WriteTxn<'a> {
             }
             for node in run.iter_tombstoned_nodes() {
                 wal.append(&WalRecord::TombstoneNode { node })?;
-            }
-            for edge in run.iter_tombstoned_edges() {
-                wal.append(&WalRecord::TombstoneEdge {
-                    src: edge.src,
-                    rel: edge.rel,
-                    dst: edge.dst,
-                })?;
             }
 
             // Write property operations
